@@ -124,7 +124,7 @@ func solveOne(o *Obligation, dir string, quickSec, raceSec int) {
 	want := "unsat"
 	if o.Cover {
 		// covers: anything but unsat is fine
-		r := runSolver(context.Background(), solvers[0], file, quickSec)
+		r := runSolver(context.Background(), solvers[0], file, 1)
 		o.Solver, o.Millis, o.Output = r.solver, r.millis, r.output
 		if r.verdict == "unsat" {
 			o.Status = "failed"
